@@ -1,4 +1,5 @@
 HOOK_COMMITS = ["1ff129b", "a99d5e7"]
+FIX_COMMITS = ["4e1b160", "0b73798", "872da6d"]
 NOTES = "See DESIGN.md. Every check rebuilds the Lean property module, audits axioms, rebuilds the harness from /repo's working tree (content-hash cache) and runs the ties."
 NOT_APPLICABLE = {}
 CHECKS = {
@@ -7,5 +8,29 @@ CHECKS = {
   "technique": "Lean 4: verified linearizability checker (sound+complete theorem) judging histories of the real stacks under a deterministic scheduler",
   "text": "Histories of every stack variant, produced by the real code under seeded random/PCT schedules and exhaustive <=1 (thorough <=2) preemption enumeration, are judged against the Lean LIFO specification by a checker proved sound and complete in Lean. The theorem is about the checker and the specification; the algorithm model (Treiber atomic-step machine) is added on top when finished.",
   "note": "SC interleavings only; memory orders not modelled; explored schedules only for the history tie; Lean kernel + propext/Classical.choice/Quot.sound.",
+ },
+ "C22": {
+  "category": "proof",
+  "technique": "Lean 4: inductive invariant over an atomic-step machine of spin_lock (all schedules, threads, locks) + atomic-trace conformance of the real lock against that machine + history tie for all five lock kinds",
+  "text": "Mutual exclusion of cds::sync::spin_lock is a Lean theorem over an interleaving machine with one transition per atomic operation, for every schedule, thread count, number of locks and client program obeying the unlock discipline; the machine is tied to the real code by replaying instrumented traces step by step. reentrant_spin_lock, pool_monitor, injecting_monitor and lock_array are decided by histories judged against the Lean lock specification with the verified checker plus occupancy and pool oracles on explored schedules (those clauses are translation validation, named in the evidence).",
+  "note": "SC interleavings; memory orders not modelled; discipline (only a holder unlocks) assumed by the theorem and obeyed by the harness; Lean kernel + propext/Classical.choice/Quot.sound.",
+ },
+ "C25": {
+  "category": "proof",
+  "technique": "Lean 4 theorems over BitVec about definitions regenerated from the C++ headers on every run (clang AST translator), cross-checked by differential evaluation against the compiled code and a reference semantics",
+  "text": "Every bit-reversal implementation, the portable MSB/LSB/popcount/complement helpers and the integer helpers are translated from the headers to Lean on every run; theorems state they equal the mathematical definition for all inputs (BitVec.reverse, log2 bounds, popcount...). The splitters are hand models (number_splitter composed from translated members) with cut/safe_cut specification theorems; all are tied to the compiled code by differential runs that also compare against an independent reference to produce a failing input when something breaks.",
+  "note": "Translator and clang AST trusted, cross-checked by differential runs; inline-asm bsr/bsf variants tied to the translated portable model by differential runs only; undefined-behaviour flags (shift >= width) are part of the translation and carried as proof obligations.",
+ },
+ "C26": {
+  "category": "proof",
+  "technique": "Lean 4: closed-form characterisation of the bit-reversed counter by induction (all n < 2^63), undo and Dyck theorems, over a hand model whose primitive is translated; differential tie on exhaustive small and random long sequences",
+  "text": "The exact sequence of slots is characterised (counter = n, highBit = log2 n, slot = 2^k + rev_k(n-2^k)); slots are pairwise distinct, complete levels are permutations, dec undoes inc exactly, balanced sequences return to the start. The literal 'permutation of 1..n for every n' is false by design (n=5) and is a recorded known finding proved as C26_literal_false.",
+  "note": "Hand model of a 30-line class tied by differential runs (exhaustive Dyck prefixes of length 14/18, random walks); no wrap-around at 2^64.",
+ },
+ "C27": {
+  "category": "proof",
+  "technique": "Lean 4 theorems over BitVec 64 about split-order functions regenerated from the headers each run, for each of the three reversal implementations; differential tie on the real SplitListSet",
+  "text": "regular keys odd, dummies even, parent dummy before child dummy, bucket contiguity and split refinement are theorems about the translated regular_hash/dummy_hash/bucket_no/parent_bucket for all 64-bit hashes and all table sizes 2^0..2^63, with the UB obligations discharged (after the fix: commit). The differential tie calls the real functions (bucket_no through a real SplitListSet object).",
+  "note": "Translator trusted and cross-checked; bucket-count logarithm is a parameter (it is an atomic member); rcu/nogc textual copies covered by the fix commit and by reading, not by the translator.",
  },
 }
